@@ -33,6 +33,8 @@ func main() {
 		return
 	case "C02":
 		runC02(r, rng, thorough)
+	case "C03":
+		runC03(r, rng, thorough)
 	case "C14":
 		runC14(r, rng, thorough)
 	case "C17":
